@@ -296,7 +296,8 @@ class Controlled(QuantumGate):
         self.draw_as_controlled = True
         array = numpy.zeros((4, 4), dtype=complex)
         array[:2, :2] = numpy.eye(2)
-        array[2:, 2:] = controlled.array
+        array[2:, 2:] = controlled.array if not controlled.is_dagger\
+            else controlled.dagger().array.conjugate().transpose()
         if distance != 0:
             raise NotImplementedError
         name = "C" + controlled.name
